@@ -147,3 +147,57 @@ def run(ctx, rep):
         rep.note("stale allow entry: " + s_)
     nb = bitmode(ctx, rep)
     rep.floor("bit-sequence sites on the encode path", nb, 3)
+    selectors_agree(ctx, rep)
+    g1justify(ctx, rep)
+
+
+def selectors_agree(ctx, rep):
+    """Derived (not stored) format decisions agree between writer and reader."""
+    from .. import selectors as SEL
+    F = ctx.F
+    tab = load_table("selectors.json")
+    led = load_table("format_ledger.json")
+    for p in tab["pairs"]:
+        F.need(p["writer"]); F.need(p["reader"])
+        cur = (led["constants"][p["version_constant"][0]] << 8) | led["constants"][p["version_constant"][1]]
+        w = SEL.render(SEL.selector_map(F, p["writer"], p["quantity"], cur, False))
+        r = SEL.render(SEL.selector_map(F, p["reader"], p["quantity"], cur, True))
+        if len(w) < p["min_entries"] or len(r) < p["min_entries"]:
+            rep.broken("selector pair %s: only %d writer / %d reader entries extracted" % (p["id"], len(w), len(r)))
+        for k, toks in sorted(w.items()):
+            ok = r.get(k) == toks
+            rep.add(Obligation("SELECTORS", p["id"], "writer case `%s`" % k, "-",
+                               DISCHARGED if ok else VIOLATION,
+                               detail="writer emits %s where %s; reader (current-version path) reads %s for the same case"
+                                      % (toks, k.replace("q", p["quantity"]), r.get(k)) if ok else
+                               "writer emits %s where %s, but the reader's cases are %s: the derived format "
+                               "decision differs between the two sides" % (toks, k.replace("q", p["quantity"]), r)))
+
+
+def g1justify(ctx, rep, only_class=None, floor=10):
+    """Input-relative count guards of the decoders must be justified by the
+    per-item consumption of everything they dominate: otherwise the reader
+    rejects streams the writer legitimately produces."""
+    from ..taintcheck import engine
+    from ..minconsume import MinConsume, find_guards, justify
+    eng = engine(ctx)
+    mc = MinConsume(eng)
+    seen = set()
+    n = 0
+    for fn in eng.scope:
+        is_ctl = fn.name.startswith("verif_control::")
+        if only_class and fn.cls != only_class and not is_ctl:
+            continue
+        for g in find_guards(eng, fn):
+            key = (fn.base, g[4])
+            if key in seen:
+                continue
+            seen.add(key)
+            ok, det = justify(eng, fn, g, mc)
+            n += 0 if is_ctl else 1
+            rep.add(Obligation("G1JUSTIFY", fn.base, "guard `%s`" % g[4][:80], fn.site(g[0].tloc or ""),
+                               DISCHARGED if ok else VIOLATION, detail=det, trivial=g[3] <= 1, control=is_ctl))
+    rep.floor("input-relative count guards analysed", n, floor)
+    ctl = [o for o in rep.obls if o.control and o.rule == "G1JUSTIFY"]
+    rep.control("G1JUSTIFY", "g1_unjustified_bad", any(o.status == VIOLATION for o in ctl),
+                "a /4 guard in front of 2-byte items must be reported")
